@@ -14,6 +14,9 @@ import (
 	"golang.org/x/tools/go/ssa"
 )
 
+var prefixDepth = func() int { n := 0; fmt.Sscanf(os.Getenv("GOSYM_PREFIX"), "%d", &n); return n }()
+var prefixCounts = map[string]int{}
+
 const verifPkg = "github.com/dtn7/dtn7-go/pkg/zzverif"
 
 type HarnessCfg struct {
@@ -47,6 +50,7 @@ type Violation struct {
 	Scalars map[string]uint64 `json:"scalars"`
 	Bytes   map[string][]byte `json:"bytes"`
 	Trail   string            `json:"trail"`
+	Observed map[string][]string `json:"observed,omitempty"`
 	// filled by the replay step
 	Confirmed   bool   `json:"confirmed"`
 	ReplayNote  string `json:"replay_note,omitempty"`
@@ -80,6 +84,8 @@ type HarnessResult struct {
 	UnknownBranches int
 	Obligations     int
 	Proved          int
+	AbsDecided      int // branches decided by the interval/known-bits domain without a query
+	AbsProved       int // obligations proved by it
 	Instrs          int64
 	Decisions       int
 	Violations      []Violation
@@ -135,7 +141,8 @@ type pathState struct {
 	known        []knownRegion
 	fpMuls       int
 	inputLen     int
-	clock        value // time.Time model value set by SetClock
+	abs          *absState
+	model        Model // cached model of the current path condition (nil = none)
 }
 
 func (in *Interp) registerInput(iv inputVar) {
@@ -305,6 +312,18 @@ func (in *Interp) verifIntrinsic(name string) intrinsic {
 			}
 			return args[0]
 		}
+	case "Param":
+		return func(in *Interp, fr *frame, args []value) value {
+			nm := concStr(args[0], "name")
+			v := int(asInt64(args[1]))
+			if sv, ok := in.cfg.Env[nm]; ok {
+				fmt.Sscanf(sv, "%d", &v)
+			}
+			if !in.run.inputNames["param!"+nm] {
+				in.registerInput(inputVar{name: "param!" + nm, kind: "scalar", term: mkBV(64, uint64(v))})
+			}
+			return v
+		}
 	case "Symbolic":
 		return func(in *Interp, fr *frame, args []value) value { return true }
 	case "RunCase", "RunFile":
@@ -395,7 +414,7 @@ func (in *Interp) recordViolation(extra *Term, kind, label, detail string) {
 			in.res.seenViol[key] = true
 			m := s.model()
 			sc, by := in.inputsModel(m)
-			in.res.Violations = append(in.res.Violations, Violation{Harness: in.cfg.Name, Kind: kind, Label: label, Detail: detail, Scalars: sc, Bytes: by, Trail: in.trailString()})
+			in.res.Violations = append(in.res.Violations, Violation{Harness: in.cfg.Name, Kind: kind, Label: label, Detail: detail, Scalars: sc, Bytes: by, Trail: in.trailString(), Observed: in.observedUnder(m)})
 		}
 	case resUnknown:
 		if !in.res.seenViol["?"+key] {
@@ -448,6 +467,12 @@ func (in *Interp) obligation(c *Term, label, kind string) {
 	if c.isTrue() {
 		in.res.Obligations++
 		in.res.Proved++
+		return
+	}
+	if in.run.abs.cond(c) == 1 {
+		in.res.Obligations++
+		in.res.Proved++
+		in.res.AbsProved++
 		return
 	}
 	nv := len(in.res.Violations)
@@ -616,6 +641,8 @@ func (in *Interp) resetPath() {
 		budget:     in.cfg.Budget,
 		calls:      map[*ssa.Function]int{},
 		inputNames: map[string]bool{},
+		abs:        newAbsState(),
+		model:      Model{},
 	}
 	in.sched = newScheduler(in)
 	in.resetEnvModels()
@@ -745,6 +772,20 @@ func (in *Interp) explore(cfg *HarnessCfg, fn *ssa.Function, deadline time.Time,
 		if in.run.inconclusive {
 			res.Inconclusive++
 		}
+		if prefixDepth > 0 {
+			k := ""
+			n := 0
+			for _, d := range in.trail {
+				if d.kind == 'e' {
+					k += fmt.Sprintf("%d,", int64(d.vals[d.choice]))
+					n++
+					if n >= prefixDepth {
+						break
+					}
+				}
+			}
+			prefixCounts[k]++
+		}
 		if completed {
 			for _, l := range in.run.reach {
 				res.Reach[l]++
@@ -766,6 +807,11 @@ func (in *Interp) explore(cfg *HarnessCfg, fn *ssa.Function, deadline time.Time,
 	}
 	for f, n := range funcCalls {
 		res.FuncInstrs[f.String()] += int64(n)
+	}
+	if prefixDepth > 0 {
+		for _, k := range sortedKeys(prefixCounts) {
+			fmt.Fprintf(os.Stderr, "PREFIX %s %d\n", k, prefixCounts[k])
+		}
 	}
 	res.Wall = time.Since(t0).Seconds()
 	return res
@@ -826,6 +872,26 @@ func (in *Interp) maybeSample(res *HarnessResult, cfg *HarnessCfg, seed int64) {
 	} else {
 		res.Samples[n%want] = smp
 	}
+}
+
+func (in *Interp) observedUnder(m Model) (out map[string][]string) {
+	out = map[string][]string{}
+	memo := map[*Term]uint64{}
+	defer func() {
+		if r := recover(); r != nil {
+			if _, ok := r.(evalUF); ok {
+				out = nil
+				return
+			}
+			panic(r)
+		}
+	}()
+	for _, o := range in.run.observes {
+		for _, v := range o.vals {
+			out[o.name] = append(out[o.name], renderObserved(v, m, memo))
+		}
+	}
+	return
 }
 
 // renderObserved prints a value the way fmt.Sprint prints its native twin.
